@@ -184,6 +184,149 @@ def _alarms(spec, real, protos, full):
     return out
 
 
+# =================================================================== pickle across interpreters
+
+def xproc_items(specs, protos):
+    """build, HASH (also every nested task), give runtime state, pickle with every protocol"""
+    from labtech.tasks import get_direct_dependencies
+    from labtech.types import ResultMeta
+    items = []
+    for s in specs:
+        t = pg.build(s)
+        inside = pr.tasks_inside(t)
+        for x in inside:
+            hash(x)
+            {x: 1}
+            x.set_context({'big': 'context'})
+            x._set_results_map({'some': 'map'})
+            x._set_result_meta(ResultMeta(start=None, duration=None))
+        items.append(dict(spec=s, key=t.cache_key, deps=[pg.show(d) for d in get_direct_dependencies(t)],
+                          blobs=[(p, pickle.dumps(t, protocol=p)) for p in protos]))
+    return items
+
+
+def xproc_round_trip(specs, protos, hashseeds):
+    """returns (violations, infra_error)"""
+    items = xproc_items(specs, protos)
+    hs = [pr.start_unpickle_worker(items, h) for h in hashseeds]
+    viol = []
+    for h, seed in zip(hs, hashseeds):
+        try:
+            res = pr.finish_worker(h)
+        except RuntimeError as e:
+            return viol, str(e)
+        for s, al in zip(specs, res):
+            for a in al:
+                viol.append(dict(what=a, replay=dict(kind='xproc', spec=s, hashseed=seed)))
+    return viol, None
+
+
+# =================================================================== a task type defined again under the same name
+
+MOD_V1 = '''"""generated by the C15 check: first definition"""
+from typing import Any
+import labtech
+
+
+@labtech.task(cache=None)
+class Leaf:
+    x: Any
+
+    def run(self):
+        return self.x * 10
+
+
+@labtech.task(cache=None)
+class T:
+    a: Any
+
+    def run(self):
+        return self.a
+'''
+MOD_V2 = '''"""generated by the C15 check: second definition, T has a new task-valued parameter"""
+from typing import Any
+import labtech
+
+
+@labtech.task(cache=None)
+class Leaf:
+    x: Any
+
+    def run(self):
+        return self.x * 10
+
+
+@labtech.task(cache=None)
+class T:
+    a: Any
+    dep: Any = None
+    more: Any = ()
+
+    def run(self):
+        return self.a + self.dep.result + self.more[0].result + self.more[1]['k'].result
+'''
+
+
+def redefine_scenario(seed):
+    """type T(a) is used (dependency search, run), then defined again under the same module and name with
+    task-valued parameters (importlib.reload of an edited module): the dependency search must see them"""
+    import importlib
+    import os
+    import shutil
+    import sys
+    import tempfile
+    import labtech
+    from labtech.tasks import get_direct_dependencies, get_direct_dependency_instances
+    viol, dis = [], []
+    rp = dict(kind='redefine')
+    d = tempfile.mkdtemp(prefix='verif-c15r-')
+    name = 'vc15_t_%d_%d' % (os.getpid(), seed)
+    path = os.path.join(d, name + '.py')
+    sys.path.insert(0, d)
+    try:
+        open(path, 'w').write(MOD_V1)
+        importlib.invalidate_caches()
+        M = importlib.import_module(name)
+        lab = labtech.Lab(storage=None, runner_backend='serial')
+        kw = dict(disable_progress=True, disable_top=True)
+        t1 = M.T(a=1)
+        if list(get_direct_dependencies(t1)) != [] or lab.run_tasks([t1], **kw).get(t1) != 1:
+            return [], [], 'redefinition scenario: first definition does not behave as written'
+        open(path, 'w').write(MOD_V2)
+        importlib.invalidate_caches()
+        old_T = M.T
+        importlib.reload(M)
+        if M.T is old_T:
+            return [], [], 'importlib.reload did not rebind the class'
+        spec = ['task', name, 'T', [['a', ['int', 2]], ['dep', ['task', name, 'Leaf', [['x', ['int', 3]]]]],
+                                    ['more', ['list', [['task', name, 'Leaf', [['x', ['int', 4]]]], ['dict', [[['k', 'k'], ['task', name, 'Leaf', [['x', ['int', 3]]]]]]]]]]]]
+        real = pr.observe(spec)
+        m = pr.parse_model(pr.model_lines([spec])[0])
+        for diff in pr.compare(spec, real, m):
+            dis.append(dict(spec=spec, diff='after re-definition of the type: ' + diff))
+        t2 = real['task']
+        want = [M.Leaf(x=3), M.Leaf(x=4)]
+        if list(get_direct_dependencies(t2)) != want:
+            viol.append(dict(what='after the task type was defined again with task-valued parameters, get_direct_dependencies misses them '
+                                  f'(found {list(get_direct_dependencies(t2))})', replay=rp))
+        if get_direct_dependency_instances(t2) != [M.Leaf(x=3), M.Leaf(x=4), M.Leaf(x=3)]:
+            viol.append(dict(what='after the task type was defined again, get_direct_dependency_instances misses task-valued parameters', replay=rp))
+        u = pickle.loads(pickle.dumps(t2))
+        if list(get_direct_dependencies(u)) != list(get_direct_dependencies(t2)):
+            viol.append(dict(what='after the task type was defined again, a pickled copy and the original find different dependencies', replay=rp))
+        try:
+            res = lab.run_tasks([t2], **kw)
+            if res.get(t2) != 2 + 30 + 40 + 30:
+                viol.append(dict(what=f'running a task of the re-defined type returned {res.get(t2)!r} (its dependencies were not run first)', replay=rp))
+        except BaseException as e:
+            viol.append(dict(what=f'running a task of the re-defined type raised {type(e).__name__}: {e}'[:200], replay=rp))
+    finally:
+        sys.path.remove(d)
+        sys.modules.pop(name, None)
+        shutil.rmtree(d, ignore_errors=True)
+    return viol, dis, None
+
+
 def run_one(spec, protos):
     real = pr.observe(spec)
     m = pr.parse_model(pr.model_lines([spec])[0])
@@ -200,6 +343,18 @@ def run(ctx):
     dist = collections.Counter()
     if ctx.get('replay'):
         rp = json.load(open(ctx['replay']))['replay']
+        if rp.get('kind') == 'xproc':
+            v, infra = xproc_round_trip([rp['spec']], protos, [rp.get('hashseed', 101), 202])
+            if infra:
+                return dict(infra_error=infra)
+            return dict(evaluations=1, distinct_nontrivial=0, rule=RULE, samples=[rp], violations=v, disagreements=[],
+                        distribution={}, assumptions=[], explanation='replay of one cross-interpreter pickle round trip')
+        if rp.get('kind') == 'redefine':
+            v, d, infra = redefine_scenario(0)
+            if infra:
+                return dict(infra_error=infra)
+            return dict(evaluations=1, distinct_nontrivial=0, rule=RULE, samples=[rp], violations=v, disagreements=d,
+                        distribution={}, assumptions=[], explanation='replay of the type re-definition scenario')
         real, m, al, diffs = run_one(rp['spec'], protos)
         return dict(evaluations=1, distinct_nontrivial=0, rule=RULE, samples=[rp],
                     violations=[dict(what=a, replay=rp) for a in al], disagreements=[dict(spec=rp['spec'], diff=d) for d in diffs],
@@ -257,6 +412,29 @@ def run(ctx):
             n, depth = n * 3, depth + 1
             continue
         break
+    # pickled copies in other interpreters (other str-hash seeds): tasks hashed before pickling
+    xs = [s for s, r in zip(specs, reals) if r['status'] == 'ok' and (lambda st: st['tasks'] >= 2 or st['enums'] or st['nodes'] >= 3)(pg.spec_stats(s))]
+    xs = xs[:400 if ctx['tier'] == 'quick' else 4000]
+    v, infra = xproc_round_trip(xs, protos, [101, 202])
+    if infra:
+        return dict(infra_error=infra)
+    dist['cross_interpreter_round_trips'] += len(xs) * len(protos) * 2
+    evaluations += len(xs)
+    viol += v
+    v, d, infra = redefine_scenario(ctx['seed'])
+    if infra:
+        return dict(infra_error=infra)
+    dist['redefinition_scenarios'] += 1
+    evaluations += 1
+    viol += v
+    dis += d
+    for xv in viol:
+        if xv['replay'].get('kind') == 'xproc':
+            want = xv['what'][:40]
+            seed_x = xv['replay']['hashseed']
+            xv['replay'] = dict(kind='xproc', hashseed=seed_x, spec=pg.shrink(
+                xv['replay']['spec'], lambda c: any(w['what'][:40] == want for w in xproc_round_trip([c], protos, [seed_x])[0]), budget=25))
+            break
     # shrink
     shrunk = []
     seen = set()
